@@ -41,7 +41,10 @@ class CustomSchema(Schema[PropsType]):
     def __d42_validate__(self, visitor: Validator, *, value: Any = Nil,
                          path: Nilable[PathHolder] = Nil, **kwargs: Any) -> ValidationResult:
         if validate_method := getattr(self, "__validate__", None):
-            res = validate_method(visitor, value=value, path=path or visitor.make_path(), **kwargs)
+            # (an explicitly passed root path such as PathHolder("body") is empty, hence falsy)
+            if path is Nil:
+                path = visitor.make_path()
+            res = validate_method(visitor, value=value, path=path, **kwargs)
             return cast(ValidationResult, res)
         raise NotImplementedError(
             f"{self.__class__.__name__} has no method '__validate__'")
